@@ -854,7 +854,7 @@ fn search_c15(budget: usize) {
     let pads = ["", " ", "\t", "  ", "\u{a0}", "\u{2003}", " \t "];
     let values: Vec<&str> = vec!["0", "5", "42", "4294967295", "4294967296", "-1", "+7", "1e3", "", "abc", "text/plain", "application/json", "Application/Json", "text/html",
         "chunked", "identity", "gzip", "Chunked", "100-continue", "100-Continue", "103-checkpoint", "identity;q=0", "*;q=0", "gzip, identity;q=0", "gzip, *;q=0",
-        "identity, *;q=0", "deflate", "gzip,deflate", " identity;q=0 ", "a:b", "x y", "\u{e9}", "first\nX-Other: second", "1\nContent-Length: 7", "v\r"];
+        "identity, *;q=0", "identity;q=0.5, *;q=0", "gzip, identity;q=1, *;q=0", "*;q=0, identity", "*;q=0,identity;q=0", "deflate", "gzip,deflate", " identity;q=0 ", "a:b", "x y", "\u{e9}", "first\nX-Other: second", "1\nContent-Length: 7", "v\r"];
     let mut tried = 0usize;
     let mk_line = |rng: &mut Rng| -> Vec<u8> {
         let mut name: String = names[rng.below(names.len())].to_string();
